@@ -117,7 +117,7 @@ func init() {
 	})
 	register(&Check{
 		ID: "C03", Level: "exploration",
-		Rule:        "same histories as C01 biased to delays and cancels of waiting jobs; restated liveness: (1) at every logical quiescence no job waits although the model says it must have started (free slot, delay expired, unchanged definition), (2) after the drain (all gates released, all delays expired) every accepted job is completed or canceled, (3) every 8th case: a runner restarted on a prepared store (jobs in every persisted state) starts the next job of every pipeline; a situation is (admission class, delayed?) at drain",
+		Rule:        "same histories as C01 biased to delays and cancels of waiting jobs; restated liveness: (1) at every logical quiescence no job waits although the model says it must have started (free slot, delay expired, unchanged definition), (2) after the drain (all gates released, all delays expired) every accepted job is completed or canceled, (3) every 8th case: a runner restarted on a prepared store (jobs in every persisted state) starts the next job of every pipeline, (4) every 32nd case: a burst of 33..260 jobs waiting behind the running ones (some waiters canceled), all of which must run in the order of acceptance; a situation is (admission class, delayed?) at drain",
 		Assumptions: []string{seqAssumption, "unbounded 'eventually' is restated as 'nothing enabled is left undone at logical quiescence' (DESIGN.md section 6)"},
 		Cases:       func(t string) int { return tierN(t, 1600, 40000) },
 		RunCase: func(c *CaseCtx) *CaseResult {
@@ -127,6 +127,10 @@ func init() {
 				k := c.Idx / 16
 				o := drv.CancelOpts{Variant: []drv.CancelVariant{drv.CvParkedDeliveredBeforeRelease, drv.CvParkedReleaseRacesDelivery, drv.CvInsideRun, drv.CvRacingLastExit, drv.CvDeliveredAtRunEntry, drv.CvSiblingStillStoppingWhileTaskBecomesReady}[k%6], Shape: (k / 6) % 9, Boundary: (k / 54) % 7, TmpDir: c.TmpDir}
 				return simpleCase(c, drv.RunCancelCase(c.Seed&^1, o), 50) // (even seed: with follower)
+			}
+			if c.Idx%32 == 9 {
+				// a burst: far more jobs wait than in any of the histories (33..260), then all of them get their turn
+				return simpleCase(c, drv.RunLongQueueCase(int64(c.Idx/32)), 100)
 			}
 			if c.Idx%8 == 2 {
 				// jobs accepted after a restart: the store may hold jobs in any state, also states that exist only for an
@@ -208,6 +212,10 @@ func init() {
 			if c.Idx%8 == 7 {
 				// schedules: concurrent clients, FIFO judged offline from Created / Start of all jobs + linearizability
 				return linCase(c, "C06")
+			}
+			if c.Idx%32 == 1 {
+				// wait lists far longer than in any history (33..260 jobs)
+				return simpleCase(c, drv.RunLongQueueCase(int64(c.Idx/32)), 100)
 			}
 			if c.Idx%8 == 3 {
 				// ... nor on definition reloads while many jobs wait (whether or not the reload touches their pipeline)
